@@ -222,6 +222,8 @@ async def do_op(sim, request):
             try:
                 result = await _evaluate(eval_kind, text)
                 outcome = {"ok": canon(result)}
+                if eval_kind in ("keys", "keys_t"):
+                    state["extracts"].append(result)
                 if eval_kind in RESOLVING:  # resolved trees are edited by callers as well
                     state["handles"].append(
                         {"text": text, "tree": result, "as_returned": outcome["ok"], "edited": False}
@@ -269,6 +271,18 @@ async def do_op(sim, request):
             state["flooded"] += op[1]
             sim.count_fault("F6_cache_flood")
             sim.probe("flood_strings", op[1])
+        elif kind == "MK":
+            # a caller edits a key extract it got back earlier (pops / appends keys of the template)
+            if state["extracts"]:
+                extract = state["extracts"][op[1] % len(state["extracts"])]
+                for name in ("requirement_constraint_keys", "hint_keys", "format_constraint_keys", "time_condition_keys"):
+                    keys = getattr(extract, name, None)
+                    if isinstance(keys, list):
+                        if keys and op[1] % 2:
+                            keys.pop()
+                        else:
+                            keys.append("4711" if name != "time_condition_keys" else "UB1")
+                sim.count_fault("F7_caller_edit")
         elif kind == "X":
             # total eviction at an arbitrary point of the history (what a full cache does to the oldest entry, done to
             # all of them): the miss path runs again and the freed trees' addresses are reused
@@ -394,7 +408,9 @@ def generate(seed, tier="quick"):
             elif roll < 0.90:
                 path = [rnd.randrange(3) for _ in range(rnd.choice([0, 0, 1, 1, 2, 3]))]
                 ops.append(["M", rnd.randrange(64), path, rnd.choice(EDITS)])
-            elif roll < 0.96:
+            elif roll < 0.93:
+                ops.append(["MK", rnd.randrange(64)])
+            elif roll < 0.97:
                 ops.append(["S", rnd.choice([1, 2, 5])])
             else:
                 ops.append(["X"])
@@ -446,7 +462,7 @@ def execute(scenario):
         f"{entry['grammar']}|{entry['text']}": pristine(_parse_alone, entry["grammar"], entry["text"]) for entry in pool
     }
     scenario = dict(scenario, _references=references, _parse_references=parse_references)
-    shared = {"handles": [], "edited": set(), "flooded": 0, "flood_counter": 0, "violation": None,
+    shared = {"handles": [], "extracts": [], "edited": set(), "flooded": 0, "flood_counter": 0, "violation": None,
               "nontrivial": False}
 
     async def run_client(sim, request):
